@@ -3,7 +3,8 @@
     Sni/WireProofs.v or Sni/WireGen.v, instantiated with the objects the
     translator regenerated from /repo (Gen/WireSchema.v). *)
 From Coq Require Import List NArith ZArith Bool String.
-From Verif Require Import Lib.Bytes Sni.Wire Sni.WireProofs Sni.WireGen Sni.WireFrozen Gen.WireSchema.
+From Verif Require Import Lib.Bytes Sni.Wire Sni.WireProofs Sni.WireGen Sni.WireFrozen Gen.WireSchema
+  Sni.WireChunks Sni.WireChunksProofs Sni.WireReader.
 Import ListNotations.
 Local Open Scope N_scope.
 
@@ -169,3 +170,97 @@ Proof.
   - repeat constructor; try discriminate.
   - exists [0;0;0;0;0;0]. split; [discriminate|reflexivity].
 Qed.
+
+(** * Round 3: the decoder reads from whatever reader it is handed *)
+
+(** [decoder.read] (io.ReadFull) on a reader that delivers the remaining
+    input in ANY pieces - short reads, zero-length reads, the last bytes
+    together with io.EOF or before it - is [d_read] on the flat input: the
+    first [n] bytes, or all of them and io.ErrUnexpectedEOF. *)
+Theorem C13_read_any_delivery : forall (r : reader N) fuel n c a,
+  (measure N r < fuel)%nat ->
+  let '(b, r') := read_full N fuel (N.to_nat n) r in
+  d_read n (mkD (flat N r) c None a) =
+  (b, mkD (flat N r') (c + N.min n (lenN (flat N r)))
+          (if n <=? lenN (flat N r) then None else Some EEof) a).
+Proof. exact d_read_any_reader. Qed.
+Print Assumptions C13_read_any_delivery.
+
+(** [decoder.end()]'s counting loop (1-byte probe, then 1 KiB reads) on such
+    a reader reports exactly the bytes left. *)
+Theorem C13_end_any_delivery : forall (r : reader N) fuel c a,
+  (measure N r < fuel)%nat ->
+  d_end (mkD (flat N r) c None a) =
+  let t := N.of_nat (end_count N fuel 1 1024 r) in
+  mkD [] c (if t =? 0 then None else Some (ETail t)) a.
+Proof. exact d_end_any_reader. Qed.
+Print Assumptions C13_end_any_delivery.
+
+(** Two readers holding the same bytes cannot be told apart by either
+    access path. *)
+Theorem C13_delivery_independent : forall (r1 r2 : reader N) min fuel buf big,
+  flat N r1 = flat N r2 -> (measure N r1 < fuel)%nat -> (measure N r2 < fuel)%nat ->
+  (0 < buf)%nat -> (0 < big)%nat ->
+  fst (read_full N fuel min r1) = fst (read_full N fuel min r2) /\
+  flat N (snd (read_full N fuel min r1)) = flat N (snd (read_full N fuel min r2)) /\
+  end_count N fuel buf big r1 = end_count N fuel buf big r2.
+Proof. exact (delivery_independent N). Qed.
+Print Assumptions C13_delivery_independent.
+
+(** The WHOLE decoder over a reader (Sni/WireReader.v: every function of
+    Sni/Wire.v re-expressed over a [reader], [abs] = the flat state it stands
+    for).  The server entry and the client-side decode, handed ANY reader,
+    answer what the flat model answers on the bytes the reader holds: same
+    result, same values, same error, same byte count, same tail count, same
+    allocation bound.  All theorems of this file about [start_call] and
+    [client_decode] therefore hold for every way of delivering the frame. *)
+Theorem C13_start_call_any_reader : forall tbl (r : reader N),
+  start_call gen_alloc_max tbl (flat N r) =
+  (fst (rstart_call gen_alloc_max tbl r), abs (snd (rstart_call gen_alloc_max tbl r))).
+Proof. exact (start_call_any_reader gen_alloc_max). Qed.
+Print Assumptions C13_start_call_any_reader.
+
+Theorem C13_client_decode_any_reader : forall cap sch (r : reader N),
+  client_decode gen_alloc_max cap sch (flat N r) =
+  match rclient_decode gen_alloc_max cap sch r with
+  | (h, Some (vs, s)) => (h, Some (vs, abs s))
+  | (h, None) => (h, None)
+  end.
+Proof. exact (client_decode_any_reader gen_alloc_max). Qed.
+Print Assumptions C13_client_decode_any_reader.
+
+(** Decoded values, error class, byte count and the tail count of
+    [decoder.end()] do not depend on how the reader chunks the same bytes or
+    on whether the last chunk comes together with io.EOF. *)
+Theorem C13_decode_delivery_independent : forall cap sch (s1 s2 : rstate),
+  abs s1 = abs s2 ->
+  fst (rdec_schema gen_alloc_max cap sch s1) = fst (rdec_schema gen_alloc_max cap sch s2) /\
+  abs (snd (rdec_schema gen_alloc_max cap sch s1)) = abs (snd (rdec_schema gen_alloc_max cap sch s2)) /\
+  abs (rd_end (snd (rdec_schema gen_alloc_max cap sch s1))) =
+  abs (rd_end (snd (rdec_schema gen_alloc_max cap sch s2))).
+Proof. exact (schema_delivery_independent gen_alloc_max). Qed.
+Print Assumptions C13_decode_delivery_independent.
+
+Theorem C13_start_call_delivery_independent : forall tbl (r1 r2 : reader N),
+  flat N r1 = flat N r2 ->
+  fst (rstart_call gen_alloc_max tbl r1) = fst (rstart_call gen_alloc_max tbl r2) /\
+  abs (snd (rstart_call gen_alloc_max tbl r1)) = abs (snd (rstart_call gen_alloc_max tbl r2)).
+Proof. exact (start_call_delivery_independent gen_alloc_max). Qed.
+Print Assumptions C13_start_call_delivery_independent.
+
+(** Seeded change C13-f (the tail counted only when Read returns no EOF):
+    a close request followed by one stray byte, delivered by a reader that
+    hands out its last bytes together with io.EOF - the model over that
+    reader still reports the tail. *)
+Example C13_tail_with_eof_reported :
+  fst (rstart_call gen_alloc_max gen_table
+         (mkR N [request_frame 7 6 (enc_schema [KU64] [VU64 5]) ++ [9]] true))
+  = CErr (ETail 1).
+Proof. vm_compute. reflexivity. Qed.
+
+Example C13_nonvacuous_reader :
+  let r := mkR N [[1]; []; [2; 3]] true in
+  fst (read_full N 10 2 r) = [1; 2] /\ flat N (snd (read_full N 10 2 r)) = [3] /\
+  end_count N 10 1 1024 r = 3%nat /\
+  fst (read_full N 10 5 r) = [1; 2; 3] /\ chunks N (snd (read_full N 10 5 r)) = [].
+Proof. vm_compute. repeat split; reflexivity. Qed.
